@@ -824,7 +824,7 @@ def coq_geo(g, i, obs):
     return None
 
 
-HDR = ("From Coq Require Import ZArith List Bool PrimFloat.\nFrom PR Require Import Base.Num Base.F64 Base.Slice Base.ListX Model.HashEq "
+HDR = ("From Coq Require Import ZArith List Bool PrimFloat.\nFrom PR Require Model.Stack.\nFrom PR Require Import Base.Num Base.F64 Base.Slice Base.ListX Model.HashEq "
        "Gen.GenC12 Model.C12_slice Model.C12_run.\nImport ListNotations.\nOpen Scope Z_scope.\n")
 
 
@@ -922,19 +922,13 @@ def build_coq(ctx, g, obs, skip):
     for idx, (c, steps) in enumerate(zip(g.stack_hist, obs["stack_hist"])):
         if any("error" in s for s in steps) or not all(okgeo(i) for i in c["members"]):
             continue
-        # the model appends without merging: only histories in which no member was merged into its predecessor
-        if any(s["ndefs"] != s["n_fresh"] for s in steps) or steps[-1]["ndefs"] != len(c["members"]):
-            continue
-        if not c["init"]:
-            pass
-
         def f(mp, c=c, steps=steps):
             parts = []
             for op, r in zip(c["ops"], steps):
                 if op[0] == "eq":
                     continue
                 o = "KHash" if op[0] == "hash" else "KAppend (%d)" % mp[op[1]]
-                parts.append("(%s, (%s, %s, %s))" % (o, b(r["memo_ok"]), b(r["fresh_ok"] and r["fresh_dig"]), b(r["deq"])))
+                parts.append("(%s, (%s, %s, %s, (%d)))" % (o, b(r["memo_ok"]), b(r["fresh_ok"] and r["fresh_dig"]), b(r["deq"]), r["ndefs"]))
             return "([%s], [%s])" % ("; ".join("(%d)" % mp[i] for i in c["init"]), "; ".join(parts))
         items["stack_hist"].append((c["members"], f))
     texts = []
